@@ -5,6 +5,8 @@ import PraatModel.Query
 import PraatModel.RunAudio
 import PraatModel.RunNumeric
 import PraatModel.RunKlatt
+import PraatModel.RunExtract
+import PraatModel.RunZero
 import PraatModel.RunIO
 
 /-! # line interpreter: one operation per line, one canonical output line -/
@@ -184,6 +186,12 @@ def runOp (op : String) : P String := do
     | some p => p
     | none =>
     match runOpIO α op with
+    | some p => p
+    | none =>
+    match runOpExtract α op with
+    | some p => p
+    | none =>
+    match runOpZero α op with
     | some p => p
     | none => throw s!"unknown op {op}"
 where
